@@ -7,6 +7,18 @@ HERE = os.path.dirname(os.path.dirname(os.path.abspath(__file__)))
 BASELINE = "cd /repo && /venv/bin/python -m pytest -ra -q -p no:cacheprovider --timeout=900 --continue-on-collection-errors"
 
 CHECKS = {
+    'C08': dict(
+        text='Lean (decide on tables regenerated from the source and the running interpreter): the inventory of raise statements equals the '
+             'classified one (API validation, self-check, CLI, internal guards, caught, unknown node, abstract stub, f-string search), '
+             'every concrete ast node class has a visitor on the printer and every statement class a dispatch entry, ast.parse is the '
+             'first stage; with C02 (the printed expressions are grammatical) and C03 (no new clash). The quantified claim itself — '
+             'minify returns and the result compiles, for every compilable source and option set; unparseable sources raise what the '
+             'parser raises — is decided by running the real code over every generator of this framework, numeric extremes, '
+             'adversarial f-strings, deep nesting, a malformed stream, under defaults / all-on / all-off / single switches / random subsets.',
+        note='PARTIAL: the Lean models are total, so totality of the implementation is not a theorem; it is an exploration with an '
+             'inventory obligation. RecursionError/MemoryError cannot be exhibited by a model (known finding F7 for very deep trees).',
+        technique='Lean 4 decide on generated inventories (raise sites, visitor coverage, pipeline head) + exhaustive/random execution oracle',
+        ref='§6 C08'),
     'C16': dict(
         text='Lean theorems on a model of _find_shebang and of the re-attachment in minify(): a source starting with #! yields exactly its '
              'first physical line under the LF / CRLF / lone-CR rule, any other source yields none, the output\'s first line is that line '
